@@ -101,7 +101,7 @@ class LadderA(core.Layer):
         self.configs = configs
         self.chunk = 40
         self.bounds = dict(worlds='indel-ladder worlds of mc.props.c15.ladder_worlds(full=%s)' % full, peaks_per_list=[1, 3], maxDistance=[4, 6],
-                           strands=['+ q', '- mirror(q)'], configs=[list(c) for c in configs])
+                           strands=['+ q', '- mirror(q)', '- q'], configs=[list(c) for c in configs])
         self.rule = '%d (world, peak list) cases x 2 strands x 2 maxDistance x %d configs' % (len(self.cases), len(configs))
 
     def nblocks(self):
@@ -111,7 +111,7 @@ class LadderA(core.Layer):
         for name, ref, q, peaks in self.cases[b * self.chunk:(b + 1) * self.chunk]:
             for cfg in self.configs:
                 for maxd in (4, 6):
-                    for rev, qq in ((False, q), (True, sorted(q[-1] - p for p in q))):
+                    for rev, qq in ((False, q), (True, sorted(q[-1] - p for p in q)), (True, q)):
                         acc.seq += 1
                         check_case(cfg, maxd, ref, qq, 0, peaks, rev, acc)
 
